@@ -99,5 +99,5 @@ EndViol(a, o) ==
   IF ~a.stopped THEN {}
   ELSE (IF o.stop # S_DONE THEN {"StopReturns"} ELSE {})
        \cup (IF Unreleased(o) # {} THEN {"CallersReleased"} ELSE {})
-       \cup (IF o.stop = S_DONE /\ o.reopen # R_OK THEN {"ReopenConsistent"} ELSE {})
+       \cup (IF o.reopen \in {R_OPENERR, R_INCONS} THEN {"ReopenConsistent"} ELSE {})
 =============================================================================
